@@ -1,0 +1,245 @@
+//go:build verif
+
+// Verification hooks for C03 (read-only glue driver): compiled only with -tags verif and reached
+// only through the scripted driver (OBFS4PROXY_VERIF_DRIVER).  Nothing here changes behaviour.
+//
+//	c03.orport <stateDir> <nodeid hex> <privkey hex> <drbgseed hex> <ok|refuse|hangup> <probe hex|->
+//
+// runs the REAL serverHandler with the REAL obfs4 server factory (identity from the arguments)
+// on an in-memory peer conn with *virtual* deadlines (a Read that finds nothing to read returns
+// the timeout error at once when a read deadline is armed), while the ORPort is a loopback
+// listener that is healthy (ok), refuses connections (refuse) or accepts and hangs up (hangup).
+// The peer sends <probe> and nothing else.  Reply:
+//
+//	ok closed=<0|1> cause=<timeout|none> closeoff_ms=<deadline that fired right before the close>
+//	   written=<bytes written to the peer> deadlines=<D+ms,RD+ms,…> oraccepts=<n> panic=<0|1> stuck=<0|1> elapsed_ms=<n>
+package main
+
+import (
+	"encoding/hex"
+	"fmt"
+	"net"
+	"os"
+	"strings"
+	"sync"
+	"time"
+
+	pt "gitlab.torproject.org/tpo/anti-censorship/pluggable-transports/goptlib"
+
+	"gitlab.com/yawning/obfs4.git/transports/obfs4"
+)
+
+type verifC03Timeout struct{}
+
+func (verifC03Timeout) Error() string   { return "i/o timeout" }
+func (verifC03Timeout) Timeout() bool   { return true }
+func (verifC03Timeout) Temporary() bool { return true }
+
+// verifC03Conn: the accepted conn. Virtual deadlines, everything recorded.
+type verifC03Conn struct {
+	mu          sync.Mutex
+	cond        *sync.Cond
+	created     time.Time
+	in          []byte
+	rdl         time.Time
+	closed      bool
+	written     int
+	deadlines   []string
+	lastTimeout bool
+	lastOff     time.Duration
+}
+
+func (c *verifC03Conn) Read(p []byte) (int, error) {
+	c.mu.Lock()
+	defer c.mu.Unlock()
+	for {
+		if c.closed {
+			return 0, net.ErrClosed
+		}
+		if len(c.in) > 0 {
+			n := copy(p, c.in)
+			c.in = c.in[n:]
+			c.lastTimeout = false
+			return n, nil
+		}
+		if !c.rdl.IsZero() {
+			c.lastTimeout = true
+			c.lastOff = c.rdl.Sub(c.created)
+			return 0, verifC03Timeout{}
+		}
+		c.cond.Wait()
+	}
+}
+
+func (c *verifC03Conn) Write(p []byte) (int, error) {
+	c.mu.Lock()
+	defer c.mu.Unlock()
+	if c.closed {
+		return 0, net.ErrClosed
+	}
+	c.written += len(p)
+	return len(p), nil
+}
+
+func (c *verifC03Conn) Close() error {
+	c.mu.Lock()
+	defer c.mu.Unlock()
+	c.closed = true
+	c.cond.Broadcast()
+	return nil
+}
+
+func (c *verifC03Conn) setDl(kind string, t time.Time, read bool) {
+	c.mu.Lock()
+	defer c.mu.Unlock()
+	if read {
+		c.rdl = t
+	}
+	if t.IsZero() {
+		c.deadlines = append(c.deadlines, kind+"0")
+	} else {
+		c.deadlines = append(c.deadlines, fmt.Sprintf("%s+%d", kind, t.Sub(c.created).Milliseconds()))
+	}
+	c.cond.Broadcast()
+}
+
+func (c *verifC03Conn) LocalAddr() net.Addr  { return &net.TCPAddr{IP: net.IPv4(127, 0, 0, 1), Port: 1} }
+func (c *verifC03Conn) RemoteAddr() net.Addr { return &net.TCPAddr{IP: net.IPv4(192, 0, 2, 7), Port: 4711} }
+func (c *verifC03Conn) SetDeadline(t time.Time) error {
+	c.setDl("D", t, true)
+	return nil
+}
+func (c *verifC03Conn) SetReadDeadline(t time.Time) error {
+	c.setDl("RD", t, true)
+	return nil
+}
+func (c *verifC03Conn) SetWriteDeadline(t time.Time) error {
+	c.setDl("WD", t, false)
+	return nil
+}
+
+func verifC03OrPort(w []string) string {
+	if len(w) != 7 {
+		return "bad-op"
+	}
+	var probe []byte
+	if w[6] != "-" {
+		b, err := hex.DecodeString(w[6])
+		if err != nil {
+			return "bad-op"
+		}
+		probe = b
+	}
+	args := pt.Args{}
+	args.Add("node-id", w[2])
+	args.Add("private-key", w[3])
+	args.Add("drbg-seed", w[4])
+	args.Add("iat-mode", "0")
+	f, err := (&obfs4.Transport{}).ServerFactory(w[1], &args)
+	if err != nil {
+		return "error factory " + strings.ReplaceAll(err.Error(), " ", "_")
+	}
+
+	// the ORPort
+	ln, err := net.ListenTCP("tcp", &net.TCPAddr{IP: net.IPv4(127, 0, 0, 1)})
+	if err != nil {
+		return "error listen"
+	}
+	addr := ln.Addr().(*net.TCPAddr)
+	var amu sync.Mutex
+	accepts := 0
+	var held []net.Conn
+	switch w[5] {
+	case "refuse":
+		ln.Close()
+	case "ok", "hangup":
+		go func() {
+			for {
+				c, err := ln.Accept()
+				if err != nil {
+					return
+				}
+				amu.Lock()
+				accepts++
+				if w[5] == "hangup" {
+					c.Close()
+				} else {
+					held = append(held, c)
+				}
+				amu.Unlock()
+			}
+		}()
+	default:
+		ln.Close()
+		return "bad-op"
+	}
+	defer func() {
+		ln.Close()
+		amu.Lock()
+		for _, c := range held {
+			c.Close()
+		}
+		amu.Unlock()
+	}()
+
+	// the monitor's events are drained, the logger stays off
+	m := &termMonitor{sigChan: make(chan os.Signal), handlerChan: make(chan int)}
+	termMon = m
+	stop := make(chan struct{})
+	defer close(stop)
+	go func() {
+		for {
+			select {
+			case <-m.handlerChan:
+			case <-stop:
+				return
+			}
+		}
+	}()
+
+	peer := &verifC03Conn{created: time.Now(), in: probe}
+	peer.cond = sync.NewCond(&peer.mu)
+	info := &pt.ServerInfo{OrAddr: addr}
+	done := make(chan struct{})
+	panicked := 0
+	start := time.Now()
+	go func() {
+		defer close(done)
+		defer func() {
+			if recover() != nil {
+				panicked = 1
+			}
+		}()
+		serverHandler(f, peer, info)
+	}()
+	stuck := 0
+	select {
+	case <-done:
+	case <-time.After(5 * time.Second):
+		stuck = 1
+	}
+	elapsed := time.Since(start)
+	time.Sleep(30 * time.Millisecond) // let a pending accept be counted
+	peer.mu.Lock()
+	closed, cause, off := 0, "none", int64(0)
+	if peer.closed {
+		closed = 1
+		if peer.lastTimeout {
+			cause, off = "timeout", peer.lastOff.Milliseconds()
+		}
+	}
+	dl := strings.Join(peer.deadlines, ",")
+	if dl == "" {
+		dl = "-"
+	}
+	written := peer.written
+	peer.mu.Unlock()
+	if stuck == 1 {
+		peer.Close()
+	}
+	amu.Lock()
+	na := accepts
+	amu.Unlock()
+	return fmt.Sprintf("ok closed=%d cause=%s closeoff_ms=%d written=%d deadlines=%s oraccepts=%d panic=%d stuck=%d elapsed_ms=%d",
+		closed, cause, off, written, dl, na, panicked, stuck, elapsed.Milliseconds())
+}
